@@ -1,4 +1,5 @@
 import ALock.Lemmas.OnceCell
+import ALock.Lemmas.OnceCellSer
 import ALock.Atomic.OnceCell
 
 /-!
@@ -24,7 +25,11 @@ order; `take` between epochs):
 * `C04_reads` — whatever a completed `wait`/`get_or_init`/`get_or_try_init`/`set`/`get` reports is
   the stored value;
 * `C04_set_back_iff` — `set` hands its argument back exactly when its own closure did not run;
-* `C04_take` — `take` empties the cell and a new epoch can begin.
+* `C04_take` — `take` empties the cell and a new epoch can begin;
+* `C04_accounting`, `C04_dropped_once` — every payload instance ever created (an initialiser's
+  result, a `set` argument) is at every moment in exactly one place: in the cell, still owned by
+  its `set` future, or in the drop log — once; when the cell and all futures are gone, every
+  instance has been dropped exactly once.
 
 "Fully written" is Part 2 (`ALock.Atomic.Once`): one step = one atomic operation on
 `OnceCell::state` or the plain `ptr::write` of the value, any number of threads, any interleaving,
@@ -285,6 +290,36 @@ theorem C04_take (s : Sys) (hf : s.futs = []) (hg : s.gone = false) (h2 : s.stat
     (next s .take).state = 0 ∧ (next s .take).value = none ∧
     (next s .take).dropped = valSerial s :: s.dropped := by
   simp [next, step, hf, hg, h2]
+
+/-- **C04 (every instance is in exactly one place).** After any history, the drop log, the value in
+the cell and the arguments still owned by `set` futures list every payload instance created so far
+exactly once. -/
+theorem C04_accounting (ops : List Op) :
+    (allSerials (run {} ops)).Nodup ∧
+    ∀ k, k < (run {} ops).nextSerial ↔ k ∈ allSerials (run {} ops) :=
+  have h := (reachable_ser ops).ser
+  ⟨h.nodup, fun k => ⟨h.complete k, h.bound k⟩⟩
+
+/-- **C04 (dropped exactly once).** No instance is dropped twice; the stored value has not been
+dropped; and once the cell is gone and no future is left, every instance ever created has been
+dropped exactly once. -/
+theorem C04_dropped_once (ops : List Op) :
+    (run {} ops).dropped.Nodup ∧
+    (∀ v, (run {} ops).value = some v → v.serial ∉ (run {} ops).dropped) ∧
+    ((run {} ops).futs = [] → (run {} ops).value = none →
+      ∀ k, k < (run {} ops).nextSerial → (run {} ops).dropped.count k = 1) := by
+  have h := (reachable_ser ops).ser
+  have hn := h.nodup
+  simp only [allSerials] at hn
+  refine ⟨(List.nodup_append.mp hn).1, ?_, ?_⟩
+  · intro v hv hm
+    have := (List.nodup_append.mp hn).2.2 v.serial hm v.serial
+      (by simp [hv, optL])
+    exact this rfl
+  · intro hf hv k hk
+    have hmem := h.complete k hk
+    simp only [allSerials, hf, hv, optL, argSerials, List.flatMap_nil, List.append_nil] at hmem
+    rw [List.Nodup.count (List.nodup_append.mp hn).1, if_pos hmem]
 
 /-! ### Non-vacuity -/
 
